@@ -4,7 +4,7 @@ import json
 import os
 
 V = os.path.dirname(os.path.dirname(os.path.abspath(__file__)))
-HOOK_COMMITS = ["57028d8", "4baeb71", "41d2c9e", "f324534", "c051a36"]
+HOOK_COMMITS = ["57028d8", "4baeb71", "41d2c9e", "f324534", "c051a36", "a4bd12e"]
 
 CHECKS = {
  "C02": ("exploration",
